@@ -161,6 +161,17 @@ func genC15(t *rapid.T) c15Case {
 		w.Accounts = append(w.Accounts, chain.GenAccount{Key: -1, Addr: addr, Coins: map[string]string{chain.Denom: "12345", chain.SecondDenom: "77"}})
 		protected = append(protected, addr)
 	}
+	// plain accounts that never signed anything and hold only coins of other denominations (e.g. IBC vouchers):
+	// touching them must never make them disappear
+	for i, n := 0, rapid.IntRange(0, 2).Draw(t, "nforeign"); i < n; i++ {
+		addr := fmt.Sprintf("0xf0e1000000000000000000000000000000000%03x", i+1)
+		coins := map[string]string{chain.SecondDenom: "55"}
+		if rapid.Bool().Draw(t, "foreigntwo") {
+			coins["ibc/27394FB092D2ECCD56123C74F36E4C1F926001CEADA9CA97EA622B25F41E5EB2"] = "9"
+		}
+		w.Accounts = append(w.Accounts, chain.GenAccount{Key: -1, Addr: addr, Coins: coins})
+		protected = append(protected, addr)
+	}
 	cs := c15Case{World: w}
 	// routers: contracts that reach the protected addresses through every route
 	nr := rapid.IntRange(1, 3).Draw(t, "nrouters")
